@@ -1257,6 +1257,10 @@ class Store:
         self._apply_subschema_path(path)
         target.apply_defaults()
         target.set_value(added_state)
+        # children that the state names below glob stores nested in the
+        # sub-schema are created by set_value: they get their declared
+        # defaults too
+        target.apply_defaults()
 
     def move(self, move, process_store):
         '''
